@@ -163,20 +163,42 @@ func indepCompress(codec string, raw []byte) []byte {
 
 // buildContainer writes a container with the harness's own writer (used to
 // feed the reader encodings the library's writer never produces).
+// metaLayout selects how buildContainer lays out the header's metadata map (see there); 0 is what the library writes
+var metaLayout int
+
 func buildContainer(schemaJSON []byte, codec string, withCodecEntry bool, sync []byte, blocks [][2]any) []byte {
 	var b []byte
 	b = append(b, 'O', 'b', 'j', 1)
-	n := int64(1)
+	// the metadata is an Avro map<bytes>: any split into blocks, with or without byte sizes, is legal, and so are
+	// entries a reader does not know
+	var entries [][]byte
 	if withCodecEntry {
-		n = 2
+		entries = append(entries, appendStr(appendStr(nil, []byte("avro.codec")), []byte(codec)))
 	}
-	b = binary.AppendVarint(b, n)
-	if withCodecEntry {
-		b = appendStr(b, []byte("avro.codec"))
-		b = appendStr(b, []byte(codec))
+	entries = append(entries, appendStr(appendStr(nil, []byte("avro.schema")), schemaJSON))
+	if metaLayout >= 3 {
+		entries = append([][]byte{appendStr(appendStr(nil, []byte("user.note")), []byte("written by the harness"))}, entries...)
 	}
-	b = appendStr(b, []byte("avro.schema"))
-	b = appendStr(b, schemaJSON)
+	switch metaLayout % 3 {
+	case 0: // one block
+		b = binary.AppendVarint(b, int64(len(entries)))
+		for _, e := range entries {
+			b = append(b, e...)
+		}
+	case 1: // one block per entry
+		for _, e := range entries {
+			b = binary.AppendVarint(b, 1)
+			b = append(b, e...)
+		}
+	case 2: // one block with its byte size (negative count)
+		var body []byte
+		for _, e := range entries {
+			body = append(body, e...)
+		}
+		b = binary.AppendVarint(b, -int64(len(entries)))
+		b = binary.AppendVarint(b, int64(len(body)))
+		b = append(b, body...)
+	}
 	b = binary.AppendVarint(b, 0)
 	b = append(b, sync...)
 	for _, blk := range blocks {
